@@ -705,6 +705,14 @@ func runC08(c *Ctx) {
 		rc := CallsTo(Calls(oc), `\(\*sio\.clientSocket\)\.setRecovered`)
 		okRec := false
 		for _, r := range rc {
+			// value form: recovered = ok && reply.PID != "" && pid == reply.PID, assigned on every CONNECT reply (F60)
+			if t := Term(r.Arg(0)); strings.Contains(t, "s.pid()#0 == ") && strings.Contains(t, ".PID") && !strings.Contains(t, "true |") {
+				okRec = true
+				if len(sp) == 1 {
+					late, _ := CanReachAvoiding(oc, sp[0].Instr, callPred(`\(\*sio\.clientSocket\)\.pid`), nil)
+					okRec = okRec && !late
+				}
+			}
 			if Term(r.Arg(0)) == "true" {
 				okRec = HasGuard(r.Instr, `\(s\.pid\(\)#0 == .*\.PID\)==true`) && HasGuard(r.Instr, `s\.pid\(\)#1==true`)
 				if len(sp) == 1 {
@@ -714,6 +722,15 @@ func runC08(c *Ctx) {
 				}
 			}
 		}
+		// F60: the flag is assigned on every successful CONNECT reply — a new session after a recovered one is not "recovered"
+		connectedStore := findInstrs(oc, storeValPred(`s\.state`, p.ConstVal("sio", "clientSocketConnStateConnected")+`(:.*)?`))
+		everyReply := len(connectedStore) >= 1
+		for _, st := range connectedStore {
+			if skip, _ := CanReachAvoiding(oc, nil, func(in ssa.Instruction) bool { return in == st }, callPred(`\(\*sio\.clientSocket\)\.setRecovered`)); skip {
+				everyReply = false
+			}
+		}
+		c.Ob("C08-D5", "sio.clientSocket.onConnect/recovered-assigned-on-every-reply", oc.Pos(), everyReply, "a path through onConnect reaches `state = connected` without assigning the recovered flag: after one recovered session every later session — also a brand-new one — is still reported as recovered")
 		c.Ob("C08-D5", "sio.clientSocket.onConnect/recovered-iff-same-pid", oc.Pos(), okRec, "recovered may be set only when the server answered with the pid the client presented (compared before the new pid is stored)")
 		ce := p.Fn("sio", "clientSocket.callEvent")
 		for _, hc := range CallsTo(Calls(ce), `\(\*sio\.eventHandler\)\.call`) {
